@@ -1,7 +1,8 @@
 """C16 — RAT-SPNs are normalised, marginalise exactly and complete/sample validly.
 Proof: Properties/C16.v (region graph partition, padding arithmetic, unpad index logic for any argsort,
-completion keeps evidence, top-down group indices, per-node marginalisation steps [partial]).
-Marginalisation/normalisation of whole class outputs and the sampler law are TIED here, not proved.
+completion keeps evidence, top-down group indices, marginalisation / sum over completions / normalisation of
+every class output of the model, sampler measure = model value).  The implementation's sampler is tied to
+that law statistically (Hoeffding), its forward/mpe numerically.
 Tie (engine E1): the constructor's region graph, masks, pad masks, argsort buffers against the model
 run on the RECORDED permutations; `forward` on complete rows and NaN patterns and `mpe` rows against
 the model evaluated at exact rationals; `sample` by a Hoeffding bound against the (tied) exact law;
@@ -396,8 +397,8 @@ def main(tier, seed, replay=None):
         "model literals, dyadic parameter generator (weights = log(k/64), logits = logit(k/16)), Hoeffding test, quadrature",
         "PyTorch kernels (indexing, gather, argsort, logsumexp, log_softmax, distributions) and float32 rounding "
         "(absorbed by the relative tolerance 2e-4 evaluated inside Coq)",
-        "sampler law: tied statistically (Hoeffding, delta=1e-9) against the exact law whose values are tied to the model; "
-        "not proved (no C16_sample_measure theorem)"]
+        "sampler law: C16_sample_measure proves that the modelled sampler's measure equals the model's value; the implementation's "
+        "random draws are tied to that law statistically (Hoeffding, delta=1e-9), not proved (torch.distributions trusted)"]
     rep.assumptions += ["Gaussian leaf densities integrate to one (dens_normalised): values enter the model as oracle tables"]
     t_start = time.time()
     cfgs = configs(rs, tier)
